@@ -18,7 +18,9 @@ import asyncio
 import concurrent.futures
 import itertools
 
-from common import Coverage, Driver, hx, rng, violation
+import re
+
+from common import Coverage, Driver, coq_eval, hx, rng, unhx, violation
 from ref.http_ref import ref_parse, title_name
 
 BODY_SIZES = [0, 1, 2, 3, 5, 15, 16, 17, 254, 255, 256, 257, 1023, 1024, 1025, 2048]
@@ -324,7 +326,7 @@ def first_diff_framing(msgs, got, want):
     return "extra"
 
 
-def check_wires(drv, msgs, add):
+def check_wires(drv, msgs, add, tap=None):
     """every message the generators call well-formed lies in the grammar wf_wire of the Coq theorem
     hfeed_correct, renders to the same bytes there, and interp gives the expected message"""
     seen, uniq = set(), []
@@ -332,10 +334,182 @@ def check_wires(drv, msgs, add):
         if m[3] not in seen:
             seen.add(m[3]); uniq.append(m)
     for m, ans in zip(uniq, drv.batch([m[3] for m in uniq])):
+        if tap is not None:
+            tap.append((m[3], ans))
         want = "true " + hx(m[0]) + " " + canon_msgs("run", [m[1]]).split(" ", 2)[2]
         if ans != want:
             add("wf-domain:outside-coq-grammar", f"a generated well-formed message is not wf_wire / renders or interprets differently in "
                 f"Model/HttpWire.v: {ans[:160]}", False, wire=m[3], expected=want, got=ans)
+
+
+# ---------------------------------------------------------------- kernel cross-check of the extracted driver
+XC_PRELUDE = """From Coq Require Import List NArith ZArith Bool.
+From AHK Require Import Lib.ByteStr Model.Http Model.HttpWire.
+Import ListNotations.
+Definition zb (b : bool) : Z := if b then 1%Z else 0%Z.
+Definition enc (b : bytes) : list Z := Z.of_nat (length b) :: map Z.of_N b.
+Definition show_hdrs (l : list (bytes * bytes)) : list Z :=
+  Z.of_nat (length l) :: flat_map (fun nv => enc (fst nv) ++ enc (snd nv)) l.
+Definition show_msg (m : msg) : list Z :=
+  (match m_kind m with KHttp => 0%Z | KEvent => 1%Z end) :: m_code m :: enc (m_version m) ++ enc (m_reason m)
+  ++ show_hdrs (m_headers m) ++ enc (m_body m).
+Definition show_state (s : hstate) : list Z :=
+  match s with
+  | Run p raw => [0%Z; match ph p with PreStatus => 0%Z | Headers => 1%Z | Body => 2%Z end; zb (chunked p); clen p;
+                  Z.of_nat (length (hdrs p)); Z.of_nat (length (body p))] ++ enc raw
+  | Halt Crashed => [1%Z] | Halt Illformed => [2%Z] | Halt Unmodelled => [3%Z] | HFuel => [4%Z]
+  end.
+Definition show_res (x : hstate * list msg) : list Z :=
+  show_state (fst x) ++ Z.of_nat (length (snd x)) :: flat_map show_msg (snd x).
+Definition show_oz (o : option Z) : list Z := match o with None => [0%Z] | Some z => [1%Z; z] end.
+Fixpoint zl_eqb (a b : list Z) : bool :=
+  match a, b with [], [] => true | x :: a', y :: b' => Z.eqb x y && zl_eqb a' b' | _, _ => false end.
+(* the loop of ocaml/drv_c07.ml `cuts`, over the same model function hfeeds; show_res is injective, so comparing
+   the encodings is comparing the results *)
+Definition show_cuts (two : bool) (s : bytes) : list Z :=
+  let n := length s in
+  let whole := show_res (hfeeds hinit [s]) in
+  let ne x := negb (zl_eqb (show_res x) whole) in
+  let flags := flat_map (fun i =>
+      let a := firstn i s in let rest := skipn i s in
+      ne (hfeeds hinit [a; rest])
+      :: (if two then map (fun j => ne (hfeeds hinit [a; firstn (j - i) rest; skipn (j - i) rest])) (seq (i + 1) (n - 1 - i))
+          else [])) (seq 1 (n - 1)) in
+  Z.of_nat (length (filter (fun b => b) flags)) :: Z.of_nat (length flags) :: whole.
+Definition show_wire (w : wire) : list Z := zb (wf_wire w) :: enc (render w) ++ show_msg (interp w).
+"""
+
+
+def coq_bytes(b):
+    b = unhx(b) if isinstance(b, str) else bytes(b)
+    return "[" + ";".join(str(x) for x in b) + "]%N" if b else "[]"
+
+
+def coq_pairs(t):
+    if t == ".":
+        return "[]"
+    return "[" + "; ".join("(%s, %s)" % tuple(coq_bytes(x) for x in kv.split("=")) for kv in t.split(",")) + "]"
+
+
+def coq_request(req):
+    """a driver request line -> the Gallina term that calls the same model function as ocaml/drv_c07.ml `handle`"""
+    t = req.split(" ")
+    k = t[0]
+    if k == "feed":
+        return "show_res (hfeeds hinit [" + "; ".join(coq_bytes(p) for p in t[1:]) + "])"
+    if k in ("cuts1", "cuts2"):
+        return f"show_cuts {'true' if k == 'cuts2' else 'false'} {coq_bytes(t[1])}"
+    if k in ("int10b", "int10s"):
+        return f"show_oz (int10 {'ws_b' if k == 'int10b' else 'ws_s'} {coq_bytes(t[1])})"
+    if k == "int16":
+        return f"show_oz (int16 {coq_bytes(t[1])})"
+    if k == "title":
+        return f"enc (title {coq_bytes(t[1])})"
+    if k in ("strips", "stripb"):
+        return f"enc (strip {'ws_s' if k == 'strips' else 'ws_b'} {coq_bytes(t[1])})"
+    if k == "wire":
+        f = t[5].split(":")
+        fr = "FNone" if f[0] == "N" else f"(FFixed {coq_bytes(f[1])})" if f[0] == "F" else f"(FChunked {coq_pairs(f[1])} {coq_bytes(f[2])})"
+        return f"show_wire (mkW {coq_bytes(t[1])} {coq_bytes(t[2])} {coq_bytes(t[3])} {coq_pairs(t[4])} {fr})"
+    raise ValueError(k)
+
+
+def z_enc(h):
+    b = unhx(h)
+    return [len(b)] + list(b)
+
+
+def z_msg(tok):
+    kind, code, ver, reason, hs, body = tok.split(":")
+    out = [{"H": 0, "E": 1}[kind], int(code)] + z_enc(ver) + z_enc(reason)
+    pairs = [] if hs == "." else [kv.split("=") for kv in hs.split(",")]
+    out.append(len(pairs))
+    for n, v in pairs:
+        out += z_enc(n) + z_enc(v)
+    return out + z_enc(body)
+
+
+def z_res(toks):
+    """'<state> <digest> <n> msg...' (res_str of the driver) -> the flat encoding of show_res"""
+    st, dg, n, msgs = toks[0], toks[1], int(toks[2]), toks[3:]
+    if st == "run":
+        ph, ck, cl, nh, nb, raw = dg.split("/")
+        out = [0, {"pre": 0, "hdr": 1, "body": 2}[ph], {"c": 1, "n": 0}[ck], int(cl), int(nh), int(nb)] + z_enc(raw)
+    else:
+        out = [{"crash": 1, "illformed": 2, "unmodelled": 3, "fuel": 4}[st]]
+    if len(msgs) != n:
+        return None
+    out.append(n)
+    for m in msgs:
+        out += z_msg(m)
+    return out
+
+
+def z_answer(req, ans):
+    """the driver's answer line -> the flat list of integers the show_* term for this request evaluates to"""
+    k, t = req.split(" ")[0], ans.split(" ")
+    try:
+        if k == "feed":
+            return z_res(t)
+        if k in ("cuts1", "cuts2"):
+            return [int(t[0]), int(t[1])] + z_res(t[2:])
+        if k in ("int10b", "int10s", "int16"):
+            return [0] if ans == "none" else [1, int(ans)]
+        if k in ("title", "strips", "stripb"):
+            return z_enc(ans)
+        if k == "wire":
+            return [{"true": 1, "false": 0}[t[0]]] + z_enc(t[1]) + z_msg(t[2])
+    except (KeyError, ValueError, IndexError, TypeError):
+        return None
+    return None
+
+
+def xc_pick(pairs, k, key, ok=lambda q, a: True):
+    """deterministic sample of k pairs: first one of every distinct key in stream order, then filled up by stride"""
+    pool = [(q, a) for q, a in pairs if ok(q, a)]
+    out, seen = [], set()
+    for q, a in pool:
+        if len(out) < k and key(q, a) not in seen:
+            seen.add(key(q, a)); out.append((q, a))
+    step = max(1, len(pool) // (k + 1))
+    for q, a in pool[step // 2::step]:
+        if len(out) < k and (q, a) not in out:
+            out.append((q, a))
+    return out
+
+
+def xc_sample(streams):
+    """streams: {'cuts2': [(request, answer)], 'cuts1': ..., 'feedB': ..., 'feedC': ..., 'wire': ..., <prim mode>: ...}"""
+    def size(q):
+        return sum(len(x) for x in q.split(" ")[1:]) // 2
+    sample = sorted(streams.get("cuts2", []), key=lambda p: (size(p[0]), p[0]))[:2]          # O(n^2) segmentations: smallest
+    sample += xc_pick(streams.get("cuts1", []), 4, lambda q, a: a.split(" ")[2], lambda q, a: size(q) <= 120)
+    sample += xc_pick(streams.get("feedB", []), 4, lambda q, a: (min(len(q.split(" ")), 6), a.split(" ")[1].split("/")[0]),
+                      lambda q, a: size(q) <= 1200)
+    sample += xc_pick(streams.get("feedC", []), 3, lambda q, a: a.split(" ")[0], lambda q, a: size(q) <= 1200)
+    sample += xc_pick(streams.get("wire", []), 4, lambda q, a: q.split(" ")[5][0], lambda q, a: size(q) <= 1200)
+    for mode in ("int10b", "int10s", "int16", "title", "strips", "stripb"):
+        # reversed: the hand-written corner cases (0x_1f, 1_000_000, 30-digit numbers, ...) are at the end of the stream
+        sample += xc_pick(streams.get(mode, [])[::-1], 2, lambda q, a: a == "none" if mode.startswith("int") else a == q.split(" ")[1],
+                          lambda q, a: len(q.split(" ")[1]) >= 6)
+    return sample[:30]
+
+
+def vm_crosscheck(ctx, sample):
+    """Evaluate the sampled driver requests with vm_compute inside Coq (same Gallina functions as ocaml/drv_c07.ml
+    calls) and compare the full structured result with the driver's answer: takes extraction + ocaml/drv*.ml out
+    of the single-point-of-trust position.  -> (requests evaluated, [(request, driver answer, vm_compute value)])"""
+    body = XC_PRELUDE + "".join(f"Eval vm_compute in ({coq_request(q)}).\n" for q, _ in sample)
+    out = coq_eval(ctx["verif"], "C07", "crosscheck", body, timeout=120)
+    blocks = out.split("= ")[1:]
+    bad = []
+    if len(blocks) != len(sample):
+        bad.append(("<all>", f"{len(sample)} requests", f"{len(blocks)} vm_compute results"))
+    for (q, a), blk in zip(sample, blocks):
+        got = [int(x) for x in re.findall(r"-?\d+", blk.split(":")[0])]
+        if z_answer(q, a) != got:
+            bad.append((q, a, got))
+    return len(blocks), bad
 
 
 # ---------------------------------------------------------------- run
@@ -384,7 +558,10 @@ async def _run(ctx):
     # ---- A: exhaustive single and double cuts of well-formed streams <= 160 bytes
     ex_streams = gen_exhaustive(tier, rng(seed, "c07ex"))
     ex_bytes = [b"".join(m[0] for m in ms) for ms in ex_streams]
-    answers = par_batch(drv, ["cuts2 " + hx(s) for s in ex_bytes])
+    xc = dict(wire=[])                   # (request, answer) pairs of every driver request kind, for vm_crosscheck
+    lines = ["cuts2 " + hx(s) for s in ex_bytes]
+    answers = par_batch(drv, lines)
+    xc["cuts2"] = list(zip(lines, answers))
     n_ex_cases = 0
     for ms, s, ans in zip(ex_streams, ex_bytes, answers):
         t = ans.split(" ", 2)
@@ -412,7 +589,7 @@ async def _run(ctx):
                  framing="+".join(m[2] for m in ms) if len(ms) <= 2 else "triple")
         if len(cov.samples) < 4:
             cov.samples.append(dict(stream="A", bytes=s.decode("latin1"), segmentations=n, delivered=len(ms)))
-    check_wires(drv, [m for ms in ex_streams for m in ms], add)
+    check_wires(drv, [m for ms in ex_streams for m in ms], add, xc["wire"])
     cov.extra["exhaustive"] = True
     cov.extra["exhaustive_part"] = (f"{len(ex_streams)} well-formed streams <= 160 bytes (every catalogue message alone, every ordered pair" + (" of 8 of them" if tier == "quick" else "") + f", "
                                     f"{6 if tier == 'quick' else 260} sampled triples): every single and every double cut position, "
@@ -437,8 +614,10 @@ async def _run(ctx):
         else:
             cuts = rand_cuts(r, s + tail, k)
         cases.append((ms, s + tail, cuts))
-    answers = drv.batch(["feed " + " ".join(hx(p) for p in split(s, cuts)) for ms, s, cuts in cases])
-    check_wires(drv, [m for ms, s, cuts in cases for m in ms], add)
+    lines = ["feed " + " ".join(hx(p) for p in split(s, cuts)) for ms, s, cuts in cases]
+    answers = drv.batch(lines)
+    xc["feedB"] = list(zip(lines, answers))
+    check_wires(drv, [m for ms, s, cuts in cases for m in ms], add, xc["wire"])
     for (ms, s, cuts), ans in zip(cases, answers):
         want = canon_msgs("run", [m[1] for m in ms])
         ref_msgs, ref_status = ref_parse(s)
@@ -465,6 +644,8 @@ async def _run(ctx):
     for s in mcases:
         lines.append(("cuts1 " if len(s) <= 220 else "feed ") + hx(s))
     answers = par_batch(drv, lines)
+    xc["cuts1"] = [(q, a) for q, a in zip(lines, answers) if q.startswith("cuts1 ")]
+    xc["feedC"] = [(q, a) for q, a in zip(lines, answers) if q.startswith("feed ")]
     multi = []
     for s, ans in zip(mcases, answers):
         if len(s) <= 220:
@@ -510,7 +691,9 @@ async def _run(ctx):
         if len(cov.samples) < 10 and mclass in ("crash", "illformed"):
             cov.samples.append(dict(stream="C", bytes=s.decode("latin1")[:160], model_class=mclass, impl=whole[:60]))
     if multi:
-        answers = drv.batch(["feed " + " ".join(hx(p) for p in split(s, cuts)) for s, segs in multi for cuts in segs])
+        lines = ["feed " + " ".join(hx(p) for p in split(s, cuts)) for s, segs in multi for cuts in segs]
+        answers = drv.batch(lines)
+        xc["feedC"] += list(zip(lines, answers))
         k = 0
         for s, segs in multi:
             for cuts in segs:
@@ -526,16 +709,28 @@ async def _run(ctx):
     prims = list(prim_cases(tier))
     for mode in ("int10b", "int10s", "int16"):
         ans = drv.batch([f"{mode} {hx(b)}" for b in prims])
+        xc[mode] = [(f"{mode} {hx(b)}", a) for b, a in zip(prims, ans)]
         for b, a in zip(prims, ans):
             if a != py_int(b, mode):
                 add(f"prim:{mode}", f"model {mode}({b!r}) = {a}, CPython = {py_int(b, mode)}", False, input=hx(b))
     for mode, f in (("title", lambda x: x.decode().title().encode()), ("strips", lambda x: x.decode().strip().encode()),
                     ("stripb", lambda x: bytes(bytearray(x).strip()))):
         ans = drv.batch([f"{mode} {hx(b)}" for b in prims])
+        xc[mode] = [(f"{mode} {hx(b)}", a) for b, a in zip(prims, ans)]
         for b, a in zip(prims, ans):
             if a != hx(f(b)):
                 add(f"prim:{mode}", f"model {mode}({b!r}) = {a}, CPython = {hx(f(b))}", False, input=hx(b))
     cov.bulk(6 * len(prims), 0, stream="D-primitives")
+
+    # ---- kernel cross-check: a sample of the requests above re-evaluated by vm_compute inside Coq
+    sample = xc_sample(xc)
+    n_xc, bad = vm_crosscheck(ctx, sample)
+    kinds = sorted({q.split(" ")[0] for q, _ in sample})
+    cov.extra["vm_compute_crosscheck"] = dict(requests=n_xc, disagreements=len(bad), request_kinds=kinds)
+    if bad:
+        add("extraction-vs-vm_compute", f"{len(bad)} of {n_xc} sampled requests: extracted driver and vm_compute disagree; first: "
+            f"request {bad[0][0][:120]} driver {str(bad[0][1])[:120]} vm_compute {str(bad[0][2])[:120]}", False,
+            request=bad[0][0], driver=bad[0][1], vm_compute=str(bad[0][2])[:2000], broken="extraction / ocaml driver glue")
 
     cov.extra["observations"] = obs
     cov.extra["wf_domain"] = ("every generated well-formed message is checked (driver request 'wire') to satisfy wf_wire, the hypothesis of hfeed_correct, and to render to the same bytes. Property claimed for well-formed messages (strict grammar in harness/ref/http_ref.py). Explicitly excluded as "
